@@ -10,86 +10,135 @@ fn val_res(r: Outcome<csl::Value>) -> J {
     r.to_json(|v| obj(vec![("v_n", jbn(&v.coin())), ("has_assets", J::Bool(v.multiasset().map(|m| m.len() > 0).unwrap_or(false)))]))
 }
 
+/// stand-alone helpers on a body holding this content (constructed and decoded)
+fn helpers(certs_j: &[J], wds_j: &[J], props_j: &[J], pd: &csl::BigNum, kd: &csl::BigNum) -> (Vec<u8>, J, J, J) {
+    let mut ins = csl::TransactionInputs::new();
+    ins.add(&mk::txin(1, 0));
+    let mut body = csl::TransactionBody::new_tx_body(&ins, &csl::TransactionOutputs::new(), &csl::BigNum::from(0u64));
+    let mut certs = csl::Certificates::new();
+    for c in certs_j { certs.add(&mk::cert(c)); }
+    if !certs_j.is_empty() { body.set_certs(&certs); }
+    let mut wds = csl::Withdrawals::new();
+    for w in wds_j { wds.insert(&mk::reward_addr(w["net"].as_u64().unwrap_or(0) as u8, &mk::cred(&w["cred"])), &bn_of(&w["amt_n"])); }
+    if !wds_j.is_empty() { body.set_withdrawals(&wds); }
+    let mut props = csl::VotingProposals::new();
+    for p in props_j { props.add(&mk::proposal(p)); }
+    if !props_j.is_empty() { body.set_voting_proposals(&props); }
+    let body_bytes = body.to_bytes();
+    let h_dep = coin_res(call(|| csl::get_deposit(&body, pd, kd)));
+    let h_imp = val_res(call(|| csl::get_implicit_input(&body, pd, kd)));
+    // the same through a decoded body (what a wallet receives)
+    let h2 = call(|| csl::TransactionBody::from_bytes(body_bytes.clone())).to_json(|b2| {
+        obj(vec![("dep", coin_res(call(|| csl::get_deposit(&b2, pd, kd)))), ("imp", val_res(call(|| csl::get_implicit_input(&b2, pd, kd))))])
+    });
+    (body_bytes, h_dep, h_imp, h2)
+}
+
+/// give the builder this content; in a later phase only the parts that CHANGED are touched (set_* again, or remove_* where a part
+/// became empty) - whatever the builder remembered about the old content has to follow
+fn give(tb: &mut csl::TransactionBuilder, certs_j: &[J], wds_j: &[J], props_j: &[J], prev: Option<&J>) -> Result<(), csl::JsError> {
+    let changed = |key: &str, now: &[J]| -> bool { match prev { None => !now.is_empty(), Some(p) => p[key].as_array().map(|a| a.as_slice() != now).unwrap_or(true) } };
+    if changed("certs", certs_j) {
+        if !certs_j.is_empty() {
+            let mut cb = csl::CertificatesBuilder::new();
+            for c in certs_j { cb.add(&mk::cert(c))?; }
+            tb.set_certs_builder(&cb);
+        } else { tb.remove_certs(); }
+    }
+    if changed("wds", wds_j) {
+        if !wds_j.is_empty() {
+            let mut wb = csl::WithdrawalsBuilder::new();
+            for w in wds_j { wb.add(&mk::reward_addr(w["net"].as_u64().unwrap_or(0) as u8, &mk::cred(&w["cred"])), &bn_of(&w["amt_n"]))?; }
+            tb.set_withdrawals_builder(&wb);
+        } else { tb.remove_withdrawals(); }
+    }
+    if changed("props", props_j) {
+        let mut pb = csl::VotingProposalBuilder::new();
+        for p in props_j { pb.add(&mk::proposal(p))?; }
+        tb.set_voting_proposal_builder(&pb);
+    }
+    Ok(())
+}
+
+/// One event per phase. Phase 0 is the scenario's content; "then" lists further contents the SAME builder is given afterwards
+/// (its figures were already asked for in the phase before: whatever it remembered must follow the content).
 pub fn run_one(out: &mut Out, sc: usize, s: &J) {
     let kd = bn_of(&s["pp"]["kd_n"]);
     let pd = bn_of(&s["pp"]["pd_n"]);
-    let empty = vec![];
-    let certs_j = s["certs"].as_array().unwrap_or(&empty);
-    let wds_j = s["wds"].as_array().unwrap_or(&empty);
-    let props_j = s["props"].as_array().unwrap_or(&empty);
-    let r = call_total(|| {
-        // ---- (a) body + helpers
-        let mut ins = csl::TransactionInputs::new();
-        ins.add(&mk::txin(1, 0));
-        let mut body = csl::TransactionBody::new_tx_body(&ins, &csl::TransactionOutputs::new(), &csl::BigNum::from(0u64));
-        let mut certs = csl::Certificates::new();
-        for c in certs_j { certs.add(&mk::cert(c)); }
-        if !certs_j.is_empty() { body.set_certs(&certs); }
-        let mut wds = csl::Withdrawals::new();
-        for w in wds_j { wds.insert(&mk::reward_addr(w["net"].as_u64().unwrap_or(0) as u8, &mk::cred(&w["cred"])), &bn_of(&w["amt_n"])); }
-        if !wds_j.is_empty() { body.set_withdrawals(&wds); }
-        let mut props = csl::VotingProposals::new();
-        for p in props_j { props.add(&mk::proposal(p)); }
-        if !props_j.is_empty() { body.set_voting_proposals(&props); }
-        let body_bytes = body.to_bytes();
-        let h_dep = coin_res(call(|| csl::get_deposit(&body, &pd, &kd)));
-        let h_imp = val_res(call(|| csl::get_implicit_input(&body, &pd, &kd)));
-        // the same through a decoded body (what a wallet receives)
-        let h2 = call(|| csl::TransactionBody::from_bytes(body_bytes.clone())).to_json(|b2| {
-            obj(vec![("dep", coin_res(call(|| csl::get_deposit(&b2, &pd, &kd)))), ("imp", val_res(call(|| csl::get_implicit_input(&b2, &pd, &kd))))])
+    let mut phases: Vec<J> = vec![s.clone()];
+    if let Some(t) = s.get("then").and_then(|x| x.as_array()) { phases.extend(t.iter().cloned()); }
+    let mut tb: Option<csl::TransactionBuilder> = None;
+    for (k, ph) in phases.iter().enumerate() {
+        let empty = vec![];
+        let certs_j = ph["certs"].as_array().unwrap_or(&empty);
+        let wds_j = ph["wds"].as_array().unwrap_or(&empty);
+        let props_j = ph["props"].as_array().unwrap_or(&empty);
+        let r = call_total(|| {
+            let (body_bytes, h_dep, h_imp, h2) = helpers(certs_j, wds_j, props_j, &pd, &kd);
+            let b = call(|| -> Result<_, csl::JsError> {
+                if tb.is_none() {
+                    let cfg = csl::TransactionBuilderConfigBuilder::new()
+                        .fee_algo(&csl::LinearFee::new(&csl::BigNum::from(44u64), &csl::BigNum::from(155381u64)))
+                        .pool_deposit(&pd).key_deposit(&kd).max_value_size(5000).max_tx_size(16384)
+                        .coins_per_utxo_byte(&csl::BigNum::from(4310u64)).build()?;
+                    let mut t = csl::TransactionBuilder::new(&cfg);
+                    t.add_regular_input(&mk::enterprise_addr(0, &csl::Credential::from_keyhash(&mk::keyhash(1))), &mk::txin(1, 0), &csl::Value::new(&csl::BigNum::from(5_000_000u64)))?;
+                    tb = Some(t);
+                }
+                let t = tb.as_mut().unwrap();
+                give(t, certs_j, wds_j, props_j, if k > 0 { Some(&phases[k - 1]) } else { None })?;
+                let dep = coin_res(call(|| t.get_deposit()));
+                let imp = val_res(call(|| t.get_implicit_input()));
+                t.set_fee(&csl::BigNum::from(0u64));
+                let body = call(|| t.build()).to_json(|b| obj(vec![("bytes", jbytes(&b.to_bytes()))]));
+                Ok((dep, imp, body))
+            }).to_json(|(dep, imp, body)| obj(vec![("dep", dep), ("imp", imp), ("body", body)]));
+            (body_bytes, h_dep, h_imp, h2, b)
         });
-        // ---- (b) builder
-        let b = call(|| -> Result<_, csl::JsError> {
-            let cfg = csl::TransactionBuilderConfigBuilder::new()
-                .fee_algo(&csl::LinearFee::new(&csl::BigNum::from(44u64), &csl::BigNum::from(155381u64)))
-                .pool_deposit(&pd).key_deposit(&kd).max_value_size(5000).max_tx_size(16384)
-                .coins_per_utxo_byte(&csl::BigNum::from(4310u64)).build()?;
-            let mut tb = csl::TransactionBuilder::new(&cfg);
-            tb.add_regular_input(&mk::enterprise_addr(0, &csl::Credential::from_keyhash(&mk::keyhash(1))), &mk::txin(1, 0), &csl::Value::new(&csl::BigNum::from(5_000_000u64)))?;
-            if !certs_j.is_empty() {
-                let mut cb = csl::CertificatesBuilder::new();
-                for c in certs_j { cb.add(&mk::cert(c))?; }
-                tb.set_certs_builder(&cb);
-            }
-            if !wds_j.is_empty() {
-                let mut wb = csl::WithdrawalsBuilder::new();
-                for w in wds_j { wb.add(&mk::reward_addr(w["net"].as_u64().unwrap_or(0) as u8, &mk::cred(&w["cred"])), &bn_of(&w["amt_n"]))?; }
-                tb.set_withdrawals_builder(&wb);
-            }
-            if !props_j.is_empty() {
-                let mut pb = csl::VotingProposalBuilder::new();
-                for p in props_j { pb.add(&mk::proposal(p))?; }
-                tb.set_voting_proposal_builder(&pb);
-            }
-            let dep = coin_res(call(|| tb.get_deposit()));
-            let imp = val_res(call(|| tb.get_implicit_input()));
-            tb.set_fee(&csl::BigNum::from(0u64));
-            let body = call(|| tb.build()).to_json(|b| obj(vec![("bytes", jbytes(&b.to_bytes()))]));
-            Ok((dep, imp, body))
-        }).to_json(|(dep, imp, body)| obj(vec![("dep", dep), ("imp", imp), ("body", body)]));
-        (body_bytes, h_dep, h_imp, h2, b)
-    });
-    let ev = match r {
-        Outcome::Ok((body, h_dep, h_imp, h2, b)) => json!({"ev":"Dep","sc":sc,"pp":s["pp"],"n":[certs_j.len(), wds_j.len(), props_j.len()],
-            "body": jbytes(&body), "h_dep": h_dep, "h_imp": h_imp, "h2": h2, "b": b}),
-        Outcome::Panic(p) => json!({"ev":"Dep","sc":sc,"pp":s["pp"],"panic":p}),
-        Outcome::Err(_) => unreachable!(),
-    };
-    out.ev(ev);
+        let ev = match r {
+            Outcome::Ok((body, h_dep, h_imp, h2, b)) => json!({"ev":"Dep","sc":sc,"phase":k,"pp":s["pp"],"n":[certs_j.len(), wds_j.len(), props_j.len()],
+                "body": jbytes(&body), "h_dep": h_dep, "h_imp": h_imp, "h2": h2, "b": b}),
+            Outcome::Panic(p) => json!({"ev":"Dep","sc":sc,"phase":k,"pp":s["pp"],"panic":p}),
+            Outcome::Err(_) => unreachable!(),
+        };
+        let refused = ev.get("b").map(|b| b.get("ok").is_none()).unwrap_or(true);
+        out.ev(ev);
+        // a builder that refused this content is in an unknown state: no further phases
+        if refused { break; }
+    }
 }
 
 fn gen(rng: &mut Rng) -> J {
     let amt = |rng: &mut Rng| -> u64 { match rng.below(5) { 0 => 0, 1 => 2_000_000, 2 => u64::MAX - rng.below(3), 3 => u64::MAX / 2 + rng.below(3), _ => rng.edge_u64() } };
     let nc = rng.below(6);
     // pool ids repeat: several registrations / retirements of ONE pool (distinct certificates: other owner, other epoch) in a transaction
-    let certs: Vec<J> = (0..nc).map(|i| json!({"k": if rng.chance(1, 4) { 3 } else { rng.below(19) }, "cred": {"t":0,"h": 1 + i}, "coin_n": jn(amt(rng)), "pool": 20 + rng.below(2)})).collect();
+    // credentials repeat in a third of the scenarios: registration and deregistration (in either form) of ONE credential in a transaction
+    let few = rng.chance(1, 3);
+    let certs: Vec<J> = (0..nc).map(|i| json!({"k": if rng.chance(1, 4) { 3 } else { rng.below(19) }, "cred": {"t":0,"h": if few { 1 + rng.below(2) } else { 1 + i }}, "coin_n": jn(amt(rng)), "pool": 20 + rng.below(2)})).collect();
     let nw = rng.below(3);
     let wds: Vec<J> = (0..nw).map(|i| json!({"cred": {"t":0,"h": 30 + i}, "net": 0, "amt_n": jn(amt(rng))})).collect();
     let np = rng.below(3);
     let mut props: Vec<J> = (0..np).map(|i| json!({"dep_n": jn(amt(rng)), "cred": {"t":0,"h": 40 + i}})).collect();
     // a proposal that is already present is added again (the set keeps it once)
     if np > 0 && rng.chance(1, 3) { let again = props[0].clone(); props.push(again); }
-    json!({"pp": {"kd_n": jn(*rng.pick(&[0u64, 2_000_000, u64::MAX])), "pd_n": jn(*rng.pick(&[0u64, 500_000_000, u64::MAX]))}, "certs": certs, "wds": wds, "props": props})
+    let mut scn = json!({"pp": {"kd_n": jn(*rng.pick(&[0u64, 2_000_000, u64::MAX])), "pd_n": jn(*rng.pick(&[0u64, 500_000_000, u64::MAX]))}, "certs": certs, "wds": wds, "props": props});
+    // further contents for the same builder: a part removed, replaced by a shorter / other list, or everything removed
+    if rng.chance(1, 3) {
+        let mut then = vec![];
+        let mut cur = scn.clone();
+        for _ in 0..1 + rng.below(2) {
+            match rng.below(5) {
+                0 => { cur["certs"] = json!([]); }
+                1 => { cur["wds"] = json!([]); }
+                2 => { cur["props"] = json!([]); }
+                3 => { if let Some(a) = cur["certs"].as_array_mut() { a.pop(); } if let Some(a) = cur["props"].as_array_mut() { a.pop(); } }
+                _ => { cur["certs"] = json!([]); cur["wds"] = json!([]); cur["props"] = json!([]); }
+            }
+            then.push(json!({"certs": cur["certs"], "wds": cur["wds"], "props": cur["props"]}));
+        }
+        scn["then"] = J::Array(then);
+    }
+    scn
 }
 
 pub fn main(a: &Args) {
